@@ -11,6 +11,7 @@
      fee                         the gas fee it offers
      sends                       coins the signer itself moves: sum of Msg.Send and of MsgSend amounts
      maxdep                      sum of the storage-deposit limits of its messages
+     locked                      what the storage-deposit addresses actually received in this transaction
      run                         it contains a MsgRun (the script acts AS the signer: it may spend
                                  anything the signer owns)
      spends, deleg               the vault's own code minted a RealmSend banker for itself / handed
@@ -27,7 +28,7 @@ AttackerOwned == {"att", "mal", "mdep"}
 \* May the ugnot balance of X decrease by dec > 0 in this transaction?
 MayDecrease(X, dec, t, grants) ==
   \/ /\ X = t.signer                                   \* it signed: fee, coins it sends, deposits it accepted to pay
-     /\ (t.run \/ dec <= t.fee + t.sends + t.maxdep)
+     /\ (t.run \/ (dec <= t.fee + t.sends + t.locked /\ t.locked <= t.maxdep))
   \/ /\ X = "vault"                                   \* the realm's own authority was exercised
      /\ (t.spends > 0 \/ t.deleg > 0 \/ "vault" \in grants)
   \/ /\ X = "vdep" /\ t.storV < 0                     \* storage the realm used was released
